@@ -79,11 +79,12 @@ fn gen_obj(c: &mut Choice) -> Obj {
         let w = {
             let mut w = m::W::new(enc);
             for _ in 0..1 + c.below(5) {
-                let d = m::Dyn { d_tag: *c.pick(&[1i64, 5, 6, 0x6ffffef5, -2]), d_un: c.val(64) };
+                let d = m::Dyn { d_tag: if c.chance(40) { c.val(64) as i64 } else { *c.pick(&[1i64, 5, 6, 0x6ffffef5, -2, 0, 16, 22, 24, 30, 0x6ffffffb, 0x7fffffff]) }, d_un: c.val(64) };
                 d.write(&mut w);
                 dyns_m.push(d);
             }
-            let d = m::Dyn { d_tag: 0, d_un: 0 };
+            // (the terminating DT_NULL entry usually carries 0, but nothing says so)
+            let d = m::Dyn { d_tag: 0, d_un: if c.chance(200) { 0 } else { c.val(64) } };
             d.write(&mut w);
             dyns_m.push(d);
             w.buf
@@ -472,8 +473,10 @@ fn check<E: EndianParse + core::fmt::Debug>(e: E, o: &Obj, c: &mut Choice, obs: 
                 .collect();
             // an ABI-tag note with a short descriptor ends the iteration in the crate: compare up to it
             let cut = want.iter().position(|w| &body[w.name.0..w.name.1] == b"GNU\0" && w.n_type == 1 && w.desc.1 - w.desc.0 < 16).unwrap_or(wd.len());
-            if a[..] != wd[..cut] || b[..] != wd[..cut] {
-                return Err(format!("section {} as notes: slice {:?} stream {:?}, reference walk {:?}", i, a, b, &wd[..cut]));
+            // (or goes on with that record untyped, which is as faithful: then everything is compared)
+            let ok = |x: &Vec<(u64, Vec<u8>, Vec<u8>)>| x[..] == wd[..cut] || x[..] == wd[..];
+            if !ok(a) || !ok(b) || a != b {
+                return Err(format!("section {} as notes: slice {:?} stream {:?}, reference walk {:?}", i, a, b, &wd[..]));
             }
         } else {
             refusals += 1;
